@@ -318,7 +318,7 @@ void drv_apply(const char* op)
     if(!strcmp(op, "put") && kp == 3) nop = 1;
     if(!strcmp(op, "open") && ((kp == 3 && (!is_linkF(p) || (k & 2))) || (kp == 1 && !(k & 2)))) nop = 1;
     if(!strcmp(op, "get") && (kp == 1 || (kp == 3 && !is_linkF(p)))) nop = 1;
-    if((!strcmp(op, "copy") || !strcmp(op, "copylim")) && ((kq == 3 && (k & 1) != 1) || !strcmp(p, q))) nop = 1;
+    if((!strcmp(op, "copy") || !strcmp(op, "copylim")) && ((kq == 3 && (k & 1) != 1) || (!strcmp(p, q) && !strcmp(op, "copylim")))) nop = 1;
   }
   if(nop) { fs_log("nop", p, q, k, d ? d : (const unsigned char*)"", dn, dIsOff, off, 0, (const unsigned char*)"", 0); free(d); return; }
 
@@ -358,6 +358,7 @@ void drv_apply(const char* op)
   else if(!strcmp(op, "rename")) r = File::rename(sp, sq, k == 1) ? 1 : 0;
   else if(!strcmp(op, "unlink")) r = File::unlink(sp) ? 1 : 0;
   else if(!strcmp(op, "dcreate")) r = Directory::create(sp) ? 1 : 0;
+  else if(!strcmp(op, "dcreateroot")) r = Directory::create(k == 0 ? String("/") : String("/tmp")) ? 1 : 0;     // exist already: must report success
   else if(!strcmp(op, "dcreated")) { String dp(sp); dp.append(k == 1 ? String("/..") : String("/.")); r = Directory::create(dp) ? 1 : 0; }
   else if(!strcmp(op, "dunlink")) r = Directory::unlink(sp, k == 1) ? 1 : 0;
   else if(!strcmp(op, "symlink")) r = File::createSymbolicLink(String(k == 0 ? g_lnF : g_lnD, String::length(k == 0 ? g_lnF : g_lnD)), sp) ? 1 : 0;
